@@ -7,63 +7,63 @@ open ImathVerif
 
 /-- extracted from the C++ template at T = Sym; 1 path(s) -/
 def M44.setEulerAngles {α : Type} [Add α] [Mul α] [Neg α] [OfNat α 0] [OfNat α 1] (sin : α → α) (cos : α → α) (m : M44 α) (r : V3 α) : (M44 α) :=
-  let t2600 := (cos r.z)
-  let t2601 := (cos r.y)
-  let t2602 := (cos r.x)
-  let t2603 := (sin r.z)
-  let t2604 := (sin r.y)
-  let t2605 := (sin r.x)
-  let t2609 := (t2600 * t2604)
-  let t2614 := (t2603 * t2604)
-  ⟨(t2600 * t2601), (t2603 * t2601), (-t2604), (0 : α), (((-t2603) * t2602) + (t2609 * t2605)), ((t2600 * t2602) + (t2614 * t2605)), (t2601 * t2605), (0 : α), ((t2603 * t2605) + (t2609 * t2602)), (((-t2600) * t2605) + (t2614 * t2602)), (t2601 * t2602), (0 : α), (0 : α), (0 : α), (0 : α), (1 : α)⟩
+  let t2609 := (cos r.z)
+  let t2610 := (cos r.y)
+  let t2611 := (cos r.x)
+  let t2612 := (sin r.z)
+  let t2613 := (sin r.y)
+  let t2614 := (sin r.x)
+  let t2618 := (t2609 * t2613)
+  let t2623 := (t2612 * t2613)
+  ⟨(t2609 * t2610), (t2612 * t2610), (-t2613), (0 : α), (((-t2612) * t2611) + (t2618 * t2614)), ((t2609 * t2611) + (t2623 * t2614)), (t2610 * t2614), (0 : α), ((t2612 * t2614) + (t2618 * t2611)), (((-t2609) * t2614) + (t2623 * t2611)), (t2610 * t2611), (0 : α), (0 : α), (0 : α), (0 : α), (1 : α)⟩
 
 /-- extracted from the C++ template at T = Sym; 2 path(s) -/
 def M44.setAxisAngle {α : Type} [Add α] [Sub α] [Mul α] [Div α] [Neg α] [LT α] [LE α] [DecidableLT α] [DecidableLE α] [DecidableEq α] [OfNat α 0] [OfNat α 1] [OfNat α 2] (tmin : α) (sqrt : α → α) (sin : α → α) (cos : α → α) (m : M44 α) (axis : V3 α) (angle : α) : (M44 α) :=
-  let t2631 := (V3.length tmin sqrt ⟨axis.x, axis.y, axis.z⟩)
-  let t2632 := (sin angle)
-  let t2633 := (cos angle)
-  let t2634 := ((1 : α) - t2633)
-  let t2635 := (((0 : α) * (0 : α)) * t2634)
-  let t2636 := (t2635 + t2633)
-  let t2637 := ((0 : α) * t2632)
-  let t2638 := (t2635 + t2637)
-  let t2639 := (t2635 - t2637)
-  let t2640 := (axis.z / t2631)
-  let t2641 := (axis.y / t2631)
-  let t2642 := (axis.x / t2631)
-  let t2646 := (t2640 * t2632)
-  let t2648 := ((t2642 * t2641) * t2634)
-  let t2650 := (t2641 * t2632)
-  let t2652 := ((t2642 * t2640) * t2634)
-  let t2658 := (t2642 * t2632)
-  let t2660 := ((t2641 * t2640) * t2634)
-  if t2631 = (0 : α) then
-    ⟨t2636, t2638, t2639, (0 : α), t2639, t2636, t2638, (0 : α), t2638, t2639, t2636, (0 : α), (0 : α), (0 : α), (0 : α), (1 : α)⟩
+  let t2640 := (V3.length tmin sqrt ⟨axis.x, axis.y, axis.z⟩)
+  let t2641 := (sin angle)
+  let t2642 := (cos angle)
+  let t2643 := ((1 : α) - t2642)
+  let t2644 := (((0 : α) * (0 : α)) * t2643)
+  let t2645 := (t2644 + t2642)
+  let t2646 := ((0 : α) * t2641)
+  let t2647 := (t2644 + t2646)
+  let t2648 := (t2644 - t2646)
+  let t2649 := (axis.z / t2640)
+  let t2650 := (axis.y / t2640)
+  let t2651 := (axis.x / t2640)
+  let t2655 := (t2649 * t2641)
+  let t2657 := ((t2651 * t2650) * t2643)
+  let t2659 := (t2650 * t2641)
+  let t2661 := ((t2651 * t2649) * t2643)
+  let t2667 := (t2651 * t2641)
+  let t2669 := ((t2650 * t2649) * t2643)
+  if t2640 = (0 : α) then
+    ⟨t2645, t2647, t2648, (0 : α), t2648, t2645, t2647, (0 : α), t2647, t2648, t2645, (0 : α), (0 : α), (0 : α), (0 : α), (1 : α)⟩
   else
-    ⟨(((t2642 * t2642) * t2634) + t2633), (t2648 + t2646), (t2652 - t2650), (0 : α), (t2648 - t2646), (((t2641 * t2641) * t2634) + t2633), (t2660 + t2658), (0 : α), (t2652 + t2650), (t2660 - t2658), (((t2640 * t2640) * t2634) + t2633), (0 : α), (0 : α), (0 : α), (0 : α), (1 : α)⟩
+    ⟨(((t2651 * t2651) * t2643) + t2642), (t2657 + t2655), (t2661 - t2659), (0 : α), (t2657 - t2655), (((t2650 * t2650) * t2643) + t2642), (t2669 + t2667), (0 : α), (t2661 + t2659), (t2669 - t2667), (((t2649 * t2649) * t2643) + t2642), (0 : α), (0 : α), (0 : α), (0 : α), (1 : α)⟩
 
 /-- extracted from the C++ template at T = Sym; 1 path(s) -/
 def M44.rotate {α : Type} [Add α] [Mul α] [Neg α] (sin : α → α) (cos : α → α) (m : M44 α) (r : V3 α) : (M44 α) :=
-  let t2600 := (cos r.z)
-  let t2601 := (cos r.y)
-  let t2602 := (cos r.x)
-  let t2603 := (sin r.z)
-  let t2604 := (sin r.y)
-  let t2605 := (sin r.x)
-  let t2606 := (t2600 * t2601)
-  let t2607 := (t2603 * t2601)
-  let t2608 := (-t2604)
-  let t2609 := (t2600 * t2604)
-  let t2611 := (-t2603)
-  let t2613 := ((t2611 * t2602) + (t2609 * t2605))
-  let t2614 := (t2603 * t2604)
-  let t2617 := ((t2600 * t2602) + (t2614 * t2605))
-  let t2618 := (t2601 * t2605)
-  let t2626 := (t2601 * t2602)
-  let t2667 := (-t2605)
-  let t2669 := ((t2611 * t2667) + (t2609 * t2602))
-  let t2671 := ((t2600 * t2667) + (t2614 * t2602))
-  ⟨(((m.x00 * t2606) + (m.x10 * t2607)) + (m.x20 * t2608)), (((m.x01 * t2606) + (m.x11 * t2607)) + (m.x21 * t2608)), (((m.x02 * t2606) + (m.x12 * t2607)) + (m.x22 * t2608)), (((m.x03 * t2606) + (m.x13 * t2607)) + (m.x23 * t2608)), (((m.x00 * t2613) + (m.x10 * t2617)) + (m.x20 * t2618)), (((m.x01 * t2613) + (m.x11 * t2617)) + (m.x21 * t2618)), (((m.x02 * t2613) + (m.x12 * t2617)) + (m.x22 * t2618)), (((m.x03 * t2613) + (m.x13 * t2617)) + (m.x23 * t2618)), (((m.x00 * t2669) + (m.x10 * t2671)) + (m.x20 * t2626)), (((m.x01 * t2669) + (m.x11 * t2671)) + (m.x21 * t2626)), (((m.x02 * t2669) + (m.x12 * t2671)) + (m.x22 * t2626)), (((m.x03 * t2669) + (m.x13 * t2671)) + (m.x23 * t2626)), m.x30, m.x31, m.x32, m.x33⟩
+  let t2609 := (cos r.z)
+  let t2610 := (cos r.y)
+  let t2611 := (cos r.x)
+  let t2612 := (sin r.z)
+  let t2613 := (sin r.y)
+  let t2614 := (sin r.x)
+  let t2615 := (t2609 * t2610)
+  let t2616 := (t2612 * t2610)
+  let t2617 := (-t2613)
+  let t2618 := (t2609 * t2613)
+  let t2620 := (-t2612)
+  let t2622 := ((t2620 * t2611) + (t2618 * t2614))
+  let t2623 := (t2612 * t2613)
+  let t2626 := ((t2609 * t2611) + (t2623 * t2614))
+  let t2627 := (t2610 * t2614)
+  let t2635 := (t2610 * t2611)
+  let t2676 := (-t2614)
+  let t2678 := ((t2620 * t2676) + (t2618 * t2611))
+  let t2680 := ((t2609 * t2676) + (t2623 * t2611))
+  ⟨(((m.x00 * t2615) + (m.x10 * t2616)) + (m.x20 * t2617)), (((m.x01 * t2615) + (m.x11 * t2616)) + (m.x21 * t2617)), (((m.x02 * t2615) + (m.x12 * t2616)) + (m.x22 * t2617)), (((m.x03 * t2615) + (m.x13 * t2616)) + (m.x23 * t2617)), (((m.x00 * t2622) + (m.x10 * t2626)) + (m.x20 * t2627)), (((m.x01 * t2622) + (m.x11 * t2626)) + (m.x21 * t2627)), (((m.x02 * t2622) + (m.x12 * t2626)) + (m.x22 * t2627)), (((m.x03 * t2622) + (m.x13 * t2626)) + (m.x23 * t2627)), (((m.x00 * t2678) + (m.x10 * t2680)) + (m.x20 * t2635)), (((m.x01 * t2678) + (m.x11 * t2680)) + (m.x21 * t2635)), (((m.x02 * t2678) + (m.x12 * t2680)) + (m.x22 * t2635)), (((m.x03 * t2678) + (m.x13 * t2680)) + (m.x23 * t2635)), m.x30, m.x31, m.x32, m.x33⟩
 
 /-- extracted from the C++ template at T = Sym; 1 path(s) -/
 def M44.setScaleS {α : Type} [OfNat α 0] [OfNat α 1] (m : M44 α) (s : α) : (M44 α) :=
@@ -87,8 +87,7 @@ def M44.translation {α : Type} (m : M44 α) : (V3 α) :=
 
 /-- extracted from the C++ template at T = Sym; 1 path(s) -/
 def M44.translate {α : Type} [Add α] [Mul α] (m : M44 α) (t : V3 α) : (M44 α) :=
-  let t2752 := (t.y * m.x10)
-  ⟨m.x00, m.x01, m.x02, m.x03, m.x10, m.x11, m.x12, m.x13, m.x20, m.x21, m.x22, m.x23, (m.x30 + (((t.x * m.x00) + t2752) + (t.z * m.x20))), (m.x31 + (((t.x * m.x01) + t2752) + (t.z * m.x21))), (m.x32 + (((t.x * m.x02) + (t.y * m.x12)) + (t.z * m.x22))), (m.x33 + (((t.x * m.x03) + (t.y * m.x13)) + (t.z * m.x23)))⟩
+  ⟨m.x00, m.x01, m.x02, m.x03, m.x10, m.x11, m.x12, m.x13, m.x20, m.x21, m.x22, m.x23, (m.x30 + (((t.x * m.x00) + (t.y * m.x10)) + (t.z * m.x20))), (m.x31 + (((t.x * m.x01) + (t.y * m.x11)) + (t.z * m.x21))), (m.x32 + (((t.x * m.x02) + (t.y * m.x12)) + (t.z * m.x22))), (m.x33 + (((t.x * m.x03) + (t.y * m.x13)) + (t.z * m.x23)))⟩
 
 /-- extracted from the C++ template at T = Sym; 1 path(s) -/
 def M44.setShearV {α : Type} [OfNat α 0] [OfNat α 1] (m : M44 α) (h : V3 α) : (M44 α) :=
@@ -108,24 +107,23 @@ def M44.shear6 {α : Type} [Add α] [Mul α] (m : M44 α) (h : Shear6 α) : (M44
 
 /-- extracted from the C++ template at T = Sym; 1 path(s) -/
 def M44.translateRet {α : Type} [Add α] [Mul α] (m : M44 α) (t : V3 α) : (M44 α) :=
-  let t2752 := (t.y * m.x10)
-  ⟨m.x00, m.x01, m.x02, m.x03, m.x10, m.x11, m.x12, m.x13, m.x20, m.x21, m.x22, m.x23, (m.x30 + (((t.x * m.x00) + t2752) + (t.z * m.x20))), (m.x31 + (((t.x * m.x01) + t2752) + (t.z * m.x21))), (m.x32 + (((t.x * m.x02) + (t.y * m.x12)) + (t.z * m.x22))), (m.x33 + (((t.x * m.x03) + (t.y * m.x13)) + (t.z * m.x23)))⟩
+  ⟨m.x00, m.x01, m.x02, m.x03, m.x10, m.x11, m.x12, m.x13, m.x20, m.x21, m.x22, m.x23, (m.x30 + (((t.x * m.x00) + (t.y * m.x10)) + (t.z * m.x20))), (m.x31 + (((t.x * m.x01) + (t.y * m.x11)) + (t.z * m.x21))), (m.x32 + (((t.x * m.x02) + (t.y * m.x12)) + (t.z * m.x22))), (m.x33 + (((t.x * m.x03) + (t.y * m.x13)) + (t.z * m.x23)))⟩
 
 /-- extracted from the C++ template at T = Sym; 1 path(s) -/
 def M33.setRotation {α : Type} [Neg α] [OfNat α 0] [OfNat α 1] (sin : α → α) (cos : α → α) (m : M33 α) (r : α) : (M33 α) :=
-  let t2856 := (cos r)
-  let t2857 := (sin r)
-  ⟨t2856, t2857, (0 : α), (-t2857), t2856, (0 : α), (0 : α), (0 : α), (1 : α)⟩
+  let t2866 := (cos r)
+  let t2867 := (sin r)
+  ⟨t2866, t2867, (0 : α), (-t2867), t2866, (0 : α), (0 : α), (0 : α), (1 : α)⟩
 
 /-- extracted from the C++ template at T = Sym; 1 path(s) -/
 def M33.rotate {α : Type} [Add α] [Mul α] [Neg α] [OfNat α 0] [OfNat α 1] (sin : α → α) (cos : α → α) (m : M33 α) (r : α) : (M33 α) :=
-  let t2856 := (cos r)
-  let t2857 := (sin r)
-  let t2858 := (-t2857)
-  let t2859 := (m.x02 * (0 : α))
-  let t2873 := (m.x12 * (0 : α))
-  let t2887 := (m.x22 * (0 : α))
-  ⟨(((m.x00 * t2856) + (m.x01 * t2858)) + t2859), (((m.x00 * t2857) + (m.x01 * t2856)) + t2859), (((m.x00 * (0 : α)) + (m.x01 * (0 : α))) + (m.x02 * (1 : α))), (((m.x10 * t2856) + (m.x11 * t2858)) + t2873), (((m.x10 * t2857) + (m.x11 * t2856)) + t2873), (((m.x10 * (0 : α)) + (m.x11 * (0 : α))) + (m.x12 * (1 : α))), (((m.x20 * t2856) + (m.x21 * t2858)) + t2887), (((m.x20 * t2857) + (m.x21 * t2856)) + t2887), (((m.x20 * (0 : α)) + (m.x21 * (0 : α))) + (m.x22 * (1 : α)))⟩
+  let t2866 := (cos r)
+  let t2867 := (sin r)
+  let t2868 := (-t2867)
+  let t2869 := (m.x02 * (0 : α))
+  let t2883 := (m.x12 * (0 : α))
+  let t2897 := (m.x22 * (0 : α))
+  ⟨(((m.x00 * t2866) + (m.x01 * t2868)) + t2869), (((m.x00 * t2867) + (m.x01 * t2866)) + t2869), (((m.x00 * (0 : α)) + (m.x01 * (0 : α))) + (m.x02 * (1 : α))), (((m.x10 * t2866) + (m.x11 * t2868)) + t2883), (((m.x10 * t2867) + (m.x11 * t2866)) + t2883), (((m.x10 * (0 : α)) + (m.x11 * (0 : α))) + (m.x12 * (1 : α))), (((m.x20 * t2866) + (m.x21 * t2868)) + t2897), (((m.x20 * t2867) + (m.x21 * t2866)) + t2897), (((m.x20 * (0 : α)) + (m.x21 * (0 : α))) + (m.x22 * (1 : α)))⟩
 
 /-- extracted from the C++ template at T = Sym; 1 path(s) -/
 def M33.setScaleS {α : Type} [OfNat α 0] [OfNat α 1] (m : M33 α) (s : α) : (M33 α) :=
@@ -169,16 +167,16 @@ def M33.shearV {α : Type} [Add α] [Mul α] (m : M33 α) (h : V2 α) : (M33 α)
 
 /-- extracted from the C++ template at T = Sym; 1 path(s) -/
 def M22.setRotation {α : Type} [Neg α] (sin : α → α) (cos : α → α) (m : M22 α) (r : α) : (M22 α) :=
-  let t2856 := (cos r)
-  let t2857 := (sin r)
-  ⟨t2856, t2857, (-t2857), t2856⟩
+  let t2866 := (cos r)
+  let t2867 := (sin r)
+  ⟨t2866, t2867, (-t2867), t2866⟩
 
 /-- extracted from the C++ template at T = Sym; 1 path(s) -/
 def M22.rotate {α : Type} [Add α] [Mul α] [Neg α] [OfNat α 0] (sin : α → α) (cos : α → α) (m : M22 α) (r : α) : (M22 α) :=
-  let t2856 := (cos r)
-  let t2857 := (sin r)
-  let t2858 := (-t2857)
-  ⟨(((0 : α) + (m.x00 * t2856)) + (m.x01 * t2858)), (((0 : α) + (m.x00 * t2857)) + (m.x01 * t2856)), (((0 : α) + (m.x10 * t2856)) + (m.x11 * t2858)), (((0 : α) + (m.x10 * t2857)) + (m.x11 * t2856))⟩
+  let t2866 := (cos r)
+  let t2867 := (sin r)
+  let t2868 := (-t2867)
+  ⟨(((0 : α) + (m.x00 * t2866)) + (m.x01 * t2868)), (((0 : α) + (m.x00 * t2867)) + (m.x01 * t2866)), (((0 : α) + (m.x10 * t2866)) + (m.x11 * t2868)), (((0 : α) + (m.x10 * t2867)) + (m.x11 * t2866))⟩
 
 /-- extracted from the C++ template at T = Sym; 1 path(s) -/
 def M22.setScaleS {α : Type} [OfNat α 0] (m : M22 α) (s : α) : (M22 α) :=
